@@ -150,7 +150,55 @@ func checkC17(c *C17Case, st *VStats) *VFailure {
 	}
 	if c.Collide {
 		st.Class("name collision across kinds")
-		return nil // invariance is not comparable when a workload was added
+		// the added workload is a distinct workload: giving it a name of its own must change nothing but that name
+		// (a report depends on namespace, labels and ports - never on what else carries the same name)
+		ren := c.B.Clone()
+		nw := &ren.Workloads[len(ren.Workloads)-1]
+		oldPeer := nw.PeerString()
+		for i := 0; i < len(ren.Workloads)-1; i++ {
+			if ren.Workloads[i].PeerString() == oldPeer {
+				// e.g. ReplicaSet a next to bare pods owned by ReplicaSet a: one owner, legitimately one peer
+				st.Class("added pods belong to an existing owner")
+				return nil
+			}
+		}
+		nw.Name = "zz-unique"
+		newPeer := nw.PeerString()
+		dr := ren.WriteDir()
+		rr := RunList(dr, ListOpts{StopOnError: c.StopOnError})
+		os.RemoveAll(dr)
+		if rr.Failed() {
+			return vfail("list fails after renaming the added workload to a unique name: %v %v", rr.Err, rr.Panic)
+		}
+		want := map[string]string{}
+		for k, cs := range rr.Conns {
+			s, d := splitKey(k)
+			if s == newPeer {
+				s = oldPeer
+			}
+			if d == newPeer {
+				d = oldPeer
+			}
+			want[peerKey(s, d)] = cs.Str()
+		}
+		got := map[string]string{}
+		for k, cs := range rb.Conns {
+			got[k] = cs.Str()
+		}
+		if fmt.Sprint(want) != fmt.Sprint(got) {
+			for k, v := range want {
+				if got[k] != v {
+					return vfail("two workloads sharing a name (%s): entry %s is %q, but %q when the added workload is given the unique name zz-unique", oldPeer, k, got[k], v)
+				}
+			}
+			for k, v := range got {
+				if want[k] != v {
+					return vfail("two workloads sharing a name (%s): entry %s is %q, but %q when the added workload is given the unique name zz-unique", oldPeer, k, v, want[k])
+				}
+			}
+		}
+		st.Points(len(want))
+		return nil // kind/replica invariance is not comparable when a workload was added
 	}
 	ma, mb := stripKinds(ra), stripKinds(rb)
 	if fmt.Sprint(ma) != fmt.Sprint(mb) {
